@@ -4,6 +4,9 @@ import json, os, re, sys
 V = os.path.dirname(os.path.abspath(__file__))
 CHECKS = {
  # id: (level, technique, text, note, design_ref, engine)
+ "C01": ("model_checking", "explicit-state BFS for the reachable states + exhaustive single-mutation (thorough: pair) enumeration of every dispatched message type in every state, executed on the real dispatcher; byte-level neighbourhood enumeration",
+         "States: BFS (depth 3 quick / 4 thorough) over association, PFD, establishment, deletion, release on 2 associations with UE-IP allocation on and off. In every distinct state, for one rich well-formed message of each of the 9 dispatched types plus response-type and unsupported types: every single mutation - drop / duplicate / empty / truncate / pad / retype (6 target types) / IPv6-only (F-SEID, F-TEID, UE IP, Outer Header Creation, Node ID) / 22 flow-description truncations and malformed or IPv6 texts / reversed order / header S-flag and length - at every IE position of every nesting level. Byte level in a state with a live session: every prefix, 12 values at every byte position, all strings of length <= 2. Oracle: no panic, no Fatal (turned into a panic), handler returns, at most one datagram per injected datagram, a valid Heartbeat afterwards is answered on the same and on the other association, canonical state key unchanged or the state is rebuilt.",
+         "Mutants are injected into the same instance while the canonical state key stays unchanged (checked after every case). A datagram for an association that ended is handled by a fresh PFCPConn, as node.go does. Only panics on the handler goroutine are recovered in-process; others kill the worker and are attributed through the journal.", "8/C01", "SEQ"),
  "C02": ("model_checking", "explicit-state BFS over request histories executed on the real handlers, responses decoded and compared with a reference model; exhaustive sequence-number sweep",
          "Breadth-first search over all histories (depth 5 quick / 6 thorough) of an alphabet of association, heartbeat, PFD, establishment (4 CP SEIDs incl. 0 and 2^64-1, equal SEIDs on two sessions, CHOOSE/UE-IP allocation, wrong node), modification (accepted, CP F-SEID change, rejected), deletion, unknown-session and response-type messages over 2 associations x <=3 sessions, in 8 scenarios (UE-IP allocation, datapath down, scripted random sources yielding 0 / repeating / period 2, configured node id as FQDN and IP); each step calls the real HandlePFCPMsg and every datagram written to the peer socket is decoded and checked (count, type, sequence number, S flag/SEID, node id, UP F-SEID, Created PDR). Sequence numbers: all 2^24 values for Heartbeat and unknown-session Deletion in the thorough tier, boundary set + every 251st in quick.",
          "Trusts go-pfcp's decoder (the agent uses the same one); the PFCPConn is assembled by the harness like NewPFCPConn does (in-memory socket, injected random source); acceptance is observed, not predicted.", "8/C02", "SEQ"),
@@ -11,7 +14,7 @@ CHECKS = {
          "Documents = base (BESS|UP4) + at most 2 (quick) / 3 (thorough) deviations over a 34-field lattice of valid/boundary/invalid-type/invalid-value representatives; every document is loaded plain and with each of 10 comment forms in every token gap (2 forms for 2-deviation documents; two simultaneous comments for <=1 deviation), plus every truncation and a byte-mutation neighbourhood of the base documents and all shipped sample configurations. Oracle: no panic; a returned Conf satisfies refConf (defaults, durations parse, mode, CIDRs, peers), given scalar values arrive unchanged, and comments never change the result.",
          "refConf is my reading of the statement; string values containing comment markers and multi-line block comments are only checked for crash-freedom/validity as the statement says.", "8/C18", "ENUM"),
  "C03": ("model_checking", "explicit-state BFS over session histories on the real handlers + real bess plug-in against a fake BESS; table image compared with the reference denotation after every step; exhaustive kill/restart point enumeration",
-         "BFS (depth 4 quick / 5 thorough after the association) over establishments (basic, 3 QERs, SDF families with exact port / small range / prefix lengths / protocols, no QER with drop and buffer FARs and extreme precedences, CHOOSE) and modifications (update FAR forward<->buffer, create rules, update PDR with the same and with a new match key, update QER, remove first / last / two PDRs, remove valid-then-unknown, create-then-remove-unknown, remove FAR+QER) and deletions over 2 associations x <=3 sessions. After every response: each pdrLookup entry must be attributable to a live PDR and equal its denotation field by field (port expansions by interval algebra), FAR and QER tables exact, priorities ordered like precedences, boundary packets (+-1 on each of the 8 fields, pairs) classified identically by fake and reference, unknown-session / no-association requests write nothing. Crash points: every history up to depth 3 x every gRPC command index k: agent killed after k commands, new incarnation through the real SetUpfInfo over gRPC against the populated fake must start from empty tables and program exactly its image.",
+         "BFS (depth 5 quick / 6 thorough) over establishments (basic, 3 QERs, SDF families with exact port / small range / prefix lengths / protocols, no QER with drop and buffer FARs and extreme precedences, CHOOSE) and modifications (update FAR forward<->buffer, create rules, update PDR with the same and with a new match key, update QER, remove first / last / two PDRs, remove valid-then-unknown, create-then-remove-unknown, remove FAR+QER) and deletions over 2 associations x <=3 sessions. After every response: each pdrLookup entry must be attributable to a live PDR and equal its denotation field by field (port expansions by interval algebra), FAR and QER tables exact, priorities ordered like precedences, boundary packets (+-1 on each of the 8 fields, pairs) classified identically by fake and reference, unknown-session / no-association requests write nothing. Crash points: every history up to depth 3 x every gRPC command index k: agent killed after k commands, new incarnation through the real SetUpfInfo over gRPC against the populated fake must start from empty tables and program exactly its image.",
          "The fake BESS's table semantics (upsert by (masked values, masks) / by fields; delete of absent key is an error) and the rule denotation of DESIGN.md appendix A are trusted; acceptance is observed, not predicted; a divergence seen after a rejected request is reported only if it persists after a further accepted request.", "8/C03", "SEQ"),
  "C17": ("exploration", "bounded-exhaustive enumeration of the input domain on the real functions vs. interval-algebra reference",
          "Every (low,high) pair - thorough: all 2^31 ordered pairs for both strategies and all 2^32 pairs for classification/trivial conversion; quick: all pairs below 2048 plus the power-of-two/edge neighbourhood - is expanded by the real code and the rule set is compared with the set the range denotes; products over boundary-class range pairs; port texts. Complete over the property's own quantifier in the thorough tier.",
@@ -38,7 +41,7 @@ m = dict(version=1,
                     baseline_off_cmd="cd /repo && GOFLAGS=-mod=mod go test -vet=off -count=1 ./...",
                     source_commits=[], add_only=True),
          engines=[dict(name="ENUM", path="/verif/harness", serves_properties=["C17", "C18"], kind_free_text="bounded-exhaustive input enumeration against a reference, on the real functions"),
-                  dict(name="SEQ", path="/verif/harness", serves_properties=["C02", "C03"], kind_free_text="explicit-state BFS over operation histories; each transition calls the real handler on a freshly built real instance (replay), state de-duplication by canonical key with agent-chosen identifiers renamed"),
+                  dict(name="SEQ", path="/verif/harness", serves_properties=["C01", "C02", "C03"], kind_free_text="explicit-state BFS over operation histories; each transition calls the real handler on a freshly built real instance (replay), state de-duplication by canonical key with agent-chosen identifiers renamed"),
                   ],
          checks=checks, not_applicable=na,
          notes="All checks run through ./vcheck (python orchestrator): it rebuilds the test binary from /repo's working tree with the harness overlaid, shards the enumeration over 16 worker processes, merges their results, compares finding signatures with known_findings.txt and writes evidence/<id>.json. Exit 2 = infrastructure error (never with a VIOLATION line).")
